@@ -189,8 +189,12 @@ func c19RunLatest(b core.Batch, r *core.Recorder) {
 		lastApplied.Store(int64(arg.(time.Duration)))
 		applied.Add(1)
 	})
+	busyOnly := b.Int("busy_only", 0) == 1
 	for i := 0; i < bursts; i++ {
 		backend := []string{"memory", "file"}[i%2]
+		if busyOnly {
+			backend = "memory"
+		}
 		id := fmt.Sprintf("l%d", i)
 		n := 2 + rng.IntN(9)
 		if !r.Case(id, map[string]any{"backend": backend, "changes": n}) {
@@ -210,7 +214,7 @@ func c19RunLatest(b core.Batch, r *core.Recorder) {
 		var lastInterval time.Duration
 		// every third burst arrives while the janitor is busy: its loop is parked inside a cleanup cycle (hook
 		// janitor.scan.done) until all changes of the burst have been announced
-		parkedVariant := i%3 == 0
+		parkedVariant := i%3 == 0 && !busyOnly
 		extra := int64(0)
 		release := make(chan struct{})
 		if parkedVariant {
@@ -234,7 +238,38 @@ func c19RunLatest(b core.Batch, r *core.Recorder) {
 				close(release)
 			}
 		}
+		// every third burst (the others) arrives while the cache itself is busy: stores and deletes keep taking the
+		// cache's own locks, so that a listener can be held up between looking at the setting and applying it
+		busyVariant := i%3 == 1 || busyOnly
+		stopTraffic := make(chan struct{})
+		var traffic sync.WaitGroup
+		if busyVariant {
+			for g := 0; g < 6; g++ {
+				traffic.Add(1)
+				go func() {
+					defer traffic.Done()
+					for k := 0; ; k++ {
+						select {
+						case <-stopTraffic:
+							return
+						default:
+						}
+						key := rig.Key(g*1000 + k%50)
+						if e, err := c.Cache(key, strings.NewReader("0123456789abcdef"), time.Now().Add(time.Hour), rig.Obj{K: g, V: k}); err == nil && e != nil && e.Data != nil {
+							e.Data.Close()
+						}
+						if k%2 == 1 {
+							c.Delete(key)
+						}
+					}
+				}()
+			}
+			r.Count("bursts_while_cache_busy", 1)
+		}
 		for k := 0; k < n; k++ {
+			if busyVariant && k > 0 {
+				time.Sleep(time.Duration(20+rng.IntN(200)) * time.Microsecond)
+			}
 			lastSize = int64(1000 + rng.IntN(1_000_000))
 			lastBudget = 1 + rng.IntN(99)
 			lastInterval = time.Duration(10+rng.IntN(1000)) * time.Minute
@@ -250,15 +285,27 @@ func c19RunLatest(b core.Batch, r *core.Recorder) {
 		quiet := waitFor(func() bool {
 			return dSize.Load() == int64(n) && dBudget.Load() == int64(n) && dInterval.Load() == int64(n)+extra
 		}, 10*time.Second)
+		close(stopTraffic)
+		traffic.Wait()
 		_ = applied0
 		if parkedVariant {
 			close(release)
 		}
 		verifhook.Set("janitor.scan.done", nil)
+		var wantCap int64 = -1
+		if quiet && backend == "memory" {
+			// memoryCap = total * percent / 100: the reference is a second cache constructed with the final percent
+			c2, _ := rig.NewCache(ctx, rig.CacheOpts{Backend: "memory", Max: 1 << 30, Shards: 1, Interval: time.Hour, Budget: lastBudget})
+			_, wantCap = c2.VerifLimits()
+			c2.Destroy()
+		}
 		if quiet {
+			// bounded grace for every component that was told (the budget listener too: it needs the cache's own
+			// lock, which the traffic of the busy variant was holding - reading the cap 2 ms after the notifications
+			// were quiescent was a false alarm on a loaded machine)
 			waitFor(func() bool {
-				gs, _ := c.VerifLimits()
-				return gs == lastSize && time.Duration(lastApplied.Load()) == lastInterval
+				gs, gc := c.VerifLimits()
+				return gs == lastSize && time.Duration(lastApplied.Load()) == lastInterval && (wantCap < 0 || gc == wantCap)
 			}, 5*time.Second)
 			time.Sleep(2 * time.Millisecond)
 		}
@@ -276,10 +323,6 @@ func c19RunLatest(b core.Batch, r *core.Recorder) {
 				r.Violation("C19", "C19:stale-final-value:cleanup_interval:"+backend, fmt.Sprintf("after %d back-to-back changes the janitor ticks every %v, the last accepted value is %v", n, got, lastInterval), cs, nil)
 			}
 			if backend == "memory" {
-				// memoryCap = total * percent / 100: compare through a second cache constructed with the final percent
-				c2, _ := rig.NewCache(ctx, rig.CacheOpts{Backend: "memory", Max: 1 << 30, Shards: 1, Interval: time.Hour, Budget: lastBudget})
-				_, wantCap := c2.VerifLimits()
-				c2.Destroy()
 				if gotCap != wantCap {
 					r.Violation("C19", "C19:stale-final-value:memory_budget_percent", fmt.Sprintf("after %d back-to-back changes the memory cap is %d, the last accepted percentage (%d) gives %d", n, gotCap, lastBudget, wantCap), cs, nil)
 				}
@@ -300,6 +343,10 @@ func c19RunLatest(b core.Batch, r *core.Recorder) {
 				prev, stable = cur, 0
 			}
 		}
+	}
+	if busyOnly {
+		r.Sample(map[string]any{"part": "latest-value", "variant": "memory cache kept busy by six storing/deleting goroutines during every burst", "bursts": bursts})
+		return
 	}
 	// log level on the real logging package (process-global, initialised once)
 	cfg := config.NewDefault()
@@ -915,6 +962,9 @@ func c19Plan(tier string, seed int64) []core.Batch {
 	for _, gmp := range []string{"1", "2", "16"} {
 		bs = append(bs, core.Batch{Name: "latest-gomaxprocs" + gmp, Race: gmp == "2", TimeoutS: 1800, Env: []string{"GOMAXPROCS=" + gmp}, Args: map[string]any{"part": "latest", "bursts": bursts}})
 	}
+	for _, gmp := range []string{"2", "16"} {
+		bs = append(bs, core.Batch{Name: "latest-busy-gomaxprocs" + gmp, TimeoutS: 1800, Env: []string{"GOMAXPROCS=" + gmp}, Args: map[string]any{"part": "latest", "bursts": bursts * 6, "busy_only": 1}})
+	}
 	bs = append(bs, core.Batch{Name: "shutdown", Race: true, TimeoutS: 1800, Args: map[string]any{"part": "shutdown", "reps": reps}})
 	bs = append(bs, core.Batch{Name: "firstuse", Race: true, TimeoutS: 1800, Args: map[string]any{"part": "firstuse", "rounds": bursts * 3}})
 	bs = append(bs, core.Batch{Name: "unsub-during-fire", TimeoutS: 1800, Args: map[string]any{"part": "unsub-during-fire", "rounds": bursts * 10}})
@@ -930,7 +980,7 @@ func init() {
 		ID:    "C19",
 		Level: "exploration",
 		Rule: "set model: every sequence up to <depth> over {subscribe (<=4 listeners), unsubscribe_i (also repeated), fire} on ConfigProp.OnChange plus seeded random sequences of 8-30 ops with up to 8 listeners; after every fire exactly the model's listener set must have been called once each, no panic. " +
-			"latest value: bursts of 2-10 back-to-back changes of max_cache_size / memory_budget_percent / cleanup_interval on live memory and file caches and of the log level on the real logger, under GOMAXPROCS 1, 2, 16, every third burst while the janitor loop is parked inside a cleanup cycle (hook); at observed quiescence the component state must equal the last value. " +
+			"latest value: bursts of 2-10 back-to-back changes of max_cache_size / memory_budget_percent / cleanup_interval on live memory and file caches and of the log level on the real logger, under GOMAXPROCS 1, 2, 16, every third burst while the janitor loop is parked inside a cleanup cycle (hook), every third while six goroutines keep storing and deleting on the cache (its own locks busy); at observed quiescence the component state must equal the last value. " +
 			"shutdown: three caches on one config, every prefix of every destruction order, shut down by Destroy or by cancelling the context and then Destroy; a change must then reach exactly the survivors, and after everything is shut down further changes must leave no goroutine in the cache package. first use: on a fresh configuration the first subscriptions and first changes of a never-used setting are released at once from 3-4 goroutines, then a further change must reach every listener with its value (race build). unsubscribe during a change: 3..512 listeners, 1-3 early ones shut down from other goroutines at the instant the setting changes; survivors must each be told exactly once, also about the next change. loaded configuration: per setting a configuration loaded from the file, then its first change through the API entry point (including to the zero value of its type) must reach its listener. policy: ignore_cache_control / retry_on_invalid_range / retry_on_range_416 toggled between requests through the real proxy, once with Overwrite on the usual rig proxy and once through the API entry point on a proxy built from a default configuration whose policy settings nobody touched before NewProxy. Non-trivial = distinct sequence with a fire and >= 2 listeners / burst / order / toggle.",
 		Assumptions: []string{"quiescence of the notifications is observed (co-listeners counted); components then get a bounded grace of 5 s to end on the last value (janitor.interval.applied hook); bursts whose notifications are not all delivered within 10 s are not judged", "settings are changed with ConfigProp.Overwrite, the same entry point command-line overrides use"},
 		Plan:        c19Plan,
